@@ -29,7 +29,8 @@ SELECTING = {"filter", "filter_map", "skip", "take", "step_by", "skip_while", "t
 
 def g1(led, rid, ctx):
     lib = ctx.lib
-    f = lib.method("DimacsProof", "learned_clause")
+    from .shared import method_view as _mv
+    f = _mv(lib, "DimacsProof", "learned_clause")
     want = {("LowerBound", 1): "", ("Equal", 1): "", ("NotEqual", 0): "",
             ("UpperBound", 0): "-", ("Equal", 0): "-", ("NotEqual", 1): "-"}
     # one loop iteration: path-wise from the match on the predicate to the prefix written
@@ -210,7 +211,8 @@ def g4(led, rid, ctx):
     led.check(ok, rid, "learned-clauses-reach-the-writer", g.span, "", "log_learned_clause does not "
               "forward learned clauses to the DIMACS proof writer")
     # logged before added (shared with C06-P3)
-    r = lib.method("ConstraintSatisfactionSolver", "resolve_conflict_with_nogood")
+    from .shared import method_view as _mv
+    r = _mv(lib, "ConstraintSatisfactionSolver", "resolve_conflict_with_nogood", keep=("add_learned_nogood", "add_asserting_nogood_to_nogood_propagator", "backtrack", "process", "resolve_conflict", "prepare_for_conflict_resolution", "declare_solving", "log_learned_clause", "log_learned_nogood", "decay_nogood_activities"))
     logs = r.calls_named("log_learned_clause")
     adds = r.calls_named("add_learned_nogood")
     ok = bool(logs) and bool(adds) and all(any(r.cfg.dominates(l.bb, a.bb) for l in logs) for a in adds)
